@@ -285,10 +285,13 @@ def r8(c):
         okm = amt.kind == 'bin' and ((amt.extra[1] == 'Rem' and q.int_value(b, amt.extra[3]) == 8) or (amt.extra[1] == 'BitAnd' and q.int_value(b, amt.extra[3]) == 7)) and _self_field(b, amt.extra[2], 'pos')
     c.ob('bits/mask', okm, 'the mask is 1 << (pos % 8)', '%d shifts of 1' % len(shl), loc_of(b))
     if okm:
-        ands = [s for i, s in b.assigns() if s['rv']['r'] == 'bin' and s['rv']['op'] == 'BitAnd' and any(op_.get('pl', {}).get('l') == shl[0][1]['pl']['l'] for op_ in s['rv']['a'])]
+        def is_mask(o):
+            v_ = q.sem(b, o)
+            return v_.kind == 'bin' and isinstance(v_.extra, tuple) and len(v_.extra) > 5 and v_.extra[1] == 'Shl' and v_.extra[5] == shl[0][0]
+        ands = [s for i, s in b.assigns() if s['rv']['r'] == 'bin' and s['rv']['op'] == 'BitAnd' and any(is_mask(op_) or op_.get('pl', {}).get('l') == shl[0][1]['pl']['l'] for op_ in s['rv']['a'])]
         okv = len(ands) == 1
         if okv:
-            other = [a for a in ands[0]['rv']['a'] if a.get('pl', {}).get('l') != shl[0][1]['pl']['l']]
+            other = [a for a in ands[0]['rv']['a'] if not (is_mask(a) or a.get('pl', {}).get('l') == shl[0][1]['pl']['l'])]
             sv = q.sem(b, other[0]) if other else None
             okv = sv is not None and sv.kind == 'call' and sv.cs is get and q.has_success(sv.proj)
         c.ob('bits/value', okv, 'the bit reported is (that byte & mask) != 0', '', loc_of(b))
